@@ -1,18 +1,27 @@
 // op html (C17): Aggregated.ToHTML / Snapshot.ToHTML on snapshots whose every
 // string field carries hostile payloads; the output is tokenised with
 // golang.org/x/net/html.
-// html id mode ver values | attrs skeleton scheme complete err
+// html id mode ver values | attrs skeleton scheme complete err det region | meta footer | now maxprocs doc
 //
 //	values = (bs ...) buckets for mode agg, (gs ...) goroutines for mode snap
 //	attrs  = the href / class values of the content region, in document order (hex, comma separated)
+//	meta   = the other fields of the Snapshot: LocalGOROOT;RemoteGOROOT;LocalGOPATHs;RemoteGOPATHs;LocalGomods
+//	         (hex atoms; lists comma separated, "-" when empty; map entries key:value in Go's iteration order)
+//	footer = the footer argument of ToHTML (hex)
+//	now, maxprocs = what toHTML read from the clock (see renderHTML) and from runtime.GOMAXPROCS(0)
+//	doc    = the whole document (hex); byte-exact model: Model/HtmlPage.v
 package main
 
 import (
 	"bytes"
 	"fmt"
+	"html/template"
 	"math/rand"
 	"runtime"
+	"sort"
+	"strconv"
 	"strings"
+	"time"
 
 	"github.com/maruel/panicparse/v2/stack"
 	xhtml "golang.org/x/net/html"
@@ -30,6 +39,8 @@ var relPaths = []string{
 	"golang.org/x/sys@v0.1.0/unix/syscall.go", "golang.org/x/tools/go/ssa/builder.go", "golang.org/y/z/w.go", "github.com/onlytwo/parts",
 	"gopkg.in/yaml.v2@v2.4.0/decode.go", "example.com/a/vendor/github.com/p/q/r.go", "runtime/proc.go", "net/http/server.go", "",
 	"github.com/<script>/\"y\"@v1'2/z<.go", "github.com/a/b@v1.0.0-1-abc\"/x.go",
+	// module-cache case encoding ("!b" = "B"), including an exclamation mark with nothing after it
+	"github.com/!burnt!sushi/toml@v1.3.2/decode.go", "github.com/acme!/widget@v1.2.3/pkg/w.go", "github.com/acme/widget!@v1.2.3/pkg/w.go", "github.com/!/!@!/!.go",
 	"example.com/mail/user@/handler.go", "example.com/x@", "example.com/@/", "@", "gopkg.in/a@b@c/d.go", "example.com/mod@v2/sub/f.go",
 }
 
@@ -123,6 +134,144 @@ func (g hgen) sig() stack.Signature {
 	return s
 }
 
+// hmeta is everything ToHTML renders besides the goroutines.
+type hmeta struct {
+	snap   stack.Snapshot // Goroutines unused
+	footer string
+}
+
+func (g hgen) path() string {
+	base := []string{"/usr/local/go", "/home/user/go", "/src/app", "/opt/go", `C:\go`, ""}[g.r.Intn(6)]
+	if g.r.Intn(2) == 0 {
+		return base
+	}
+	return base + "/" + g.str(1)
+}
+
+func (g hgen) kv(n int) map[string]string {
+	if n == 0 {
+		if g.r.Intn(2) == 0 {
+			return nil
+		}
+		return map[string]string{}
+	}
+	m := map[string]string{}
+	for len(m) < n {
+		m[g.path()] = g.str(2)
+	}
+	return m
+}
+
+var footers = []string{"", "", "", "<hr>", `<p class="f">made by 'x' & co</p>`, "</table><script>alert(1)</script>", "plain + text", "<!-- c -->"}
+
+func (g hgen) meta() hmeta {
+	r := g.r
+	var m hmeta
+	switch r.Intn(5) {
+	case 0:
+	case 1:
+		m.snap.RemoteGOROOT = g.path()
+	case 2:
+		m.snap.LocalGOROOT = g.path()
+	case 3:
+		m.snap.LocalGOROOT = g.path()
+		m.snap.RemoteGOROOT = m.snap.LocalGOROOT
+	default:
+		m.snap.LocalGOROOT, m.snap.RemoteGOROOT = g.path(), g.path()
+	}
+	for n := []int{0, 1, 1, 2, 3}[r.Intn(5)]; n > 0; n-- {
+		m.snap.LocalGOPATHs = append(m.snap.LocalGOPATHs, g.path())
+	}
+	m.snap.RemoteGOPATHs = g.kv([]int{0, 0, 1, 2, 3}[r.Intn(5)])
+	m.snap.LocalGomods = g.kv([]int{0, 0, 1, 2, 3, 4}[r.Intn(6)])
+	m.footer = footers[r.Intn(len(footers))]
+	return m
+}
+
+func hexList(l []string) string {
+	if len(l) == 0 {
+		return "-"
+	}
+	var o []string
+	for _, x := range l {
+		o = append(o, hexs([]byte(x)))
+	}
+	return strings.Join(o, ",")
+}
+
+func hexMap(m map[string]string) string {
+	if len(m) == 0 {
+		return "-"
+	}
+	var o []string
+	for k, v := range m { // Go's iteration order on purpose: the model sorts
+		o = append(o, hexs([]byte(k))+":"+hexs([]byte(v)))
+	}
+	return strings.Join(o, ",")
+}
+
+func (m hmeta) String() string {
+	return strings.Join([]string{hexs([]byte(m.snap.LocalGOROOT)), hexs([]byte(m.snap.RemoteGOROOT)), hexList(m.snap.LocalGOPATHs),
+		hexMap(m.snap.RemoteGOPATHs), hexMap(m.snap.LocalGomods)}, ";")
+}
+
+func unhexList(s string) []string {
+	if s == "-" || s == "" {
+		return nil
+	}
+	var o []string
+	for _, x := range strings.Split(s, ",") {
+		o = append(o, string(unhexs(x)))
+	}
+	return o
+}
+
+func unhexMap(s string) map[string]string {
+	if s == "-" || s == "" {
+		return nil
+	}
+	m := map[string]string{}
+	for _, x := range strings.Split(s, ",") {
+		kv := strings.SplitN(x, ":", 2)
+		m[string(unhexs(kv[0]))] = string(unhexs(kv[1]))
+	}
+	return m
+}
+
+func parseHmeta(meta, footer string) hmeta {
+	var m hmeta
+	f := strings.Split(meta, ";")
+	if len(f) == 5 {
+		m.snap.LocalGOROOT, m.snap.RemoteGOROOT = string(unhexs(f[0])), string(unhexs(f[1]))
+		m.snap.LocalGOPATHs, m.snap.RemoteGOPATHs, m.snap.LocalGomods = unhexList(f[2]), unhexMap(f[3]), unhexMap(f[4])
+	}
+	m.footer = string(unhexs(footer))
+	return m
+}
+
+// twin of the metadata: same shape (which GOROOT items, number of GOPATHs and modules), harmless strings;
+// the footer is trusted input and stays
+func (t *twinner) meta(m hmeta) hmeta {
+	out := hmeta{footer: m.footer}
+	out.snap.LocalGOROOT, out.snap.RemoteGOROOT = t.s(m.snap.LocalGOROOT), t.s(m.snap.RemoteGOROOT)
+	for _, p := range m.snap.LocalGOPATHs {
+		// an empty path stays empty in the twin; that does not change the skeleton (text nodes only)
+		out.snap.LocalGOPATHs = append(out.snap.LocalGOPATHs, "p"+t.s(p))
+	}
+	if m.snap.LocalGomods != nil {
+		out.snap.LocalGomods = map[string]string{}
+		keys := make([]string, 0, len(m.snap.LocalGomods))
+		for k := range m.snap.LocalGomods {
+			keys = append(keys, k)
+		}
+		sort.Strings(keys)
+		for _, k := range keys {
+			out.snap.LocalGomods["k"+t.s(k)] = "v" + t.s(m.snap.LocalGomods[k])
+		}
+	}
+	return out
+}
+
 // benign twin: same structure, every string replaced injectively by a harmless token
 type twinner struct{ m map[string]string }
 
@@ -174,12 +323,16 @@ type tokInfo struct {
 	attrs    []string // href / class values of the content region
 	hrefs    []string // every href in the document
 	h1, tr   int      // in the content region
+	li       int      // in the metadata list: between <h2>Metadata</h2> and <h2>Legend</h2>
+	doctype  int
+	divs     int // <div id="content">
 }
 
 func tokenize(doc []byte) tokInfo {
 	var ti tokInfo
 	z := xhtml.NewTokenizer(bytes.NewReader(doc))
 	in := false
+	h2 := 0 // number of <h2> seen: the metadata list follows the first one
 	for {
 		tt := z.Next()
 		if tt == xhtml.ErrorToken {
@@ -200,8 +353,15 @@ func tokenize(doc []byte) tokInfo {
 				for _, a := range tok.Attr {
 					if a.Key == "id" && a.Val == "content" {
 						in = true
+						ti.divs++
 					}
 				}
+			}
+			if tt == xhtml.StartTagToken && tok.Data == "h2" {
+				h2++
+			}
+			if tt == xhtml.StartTagToken && tok.Data == "li" && h2 == 1 {
+				ti.li++
 			}
 			if tt == xhtml.EndTagToken && tok.Data == "div" {
 				in = false
@@ -226,6 +386,9 @@ func tokenize(doc []byte) tokInfo {
 					}
 				}
 			}
+		case xhtml.DoctypeToken:
+			ti.doctype++
+			ti.skeleton = append(ti.skeleton, tt.String())
 		case xhtml.TextToken:
 			ti.skeleton = append(ti.skeleton, "text")
 		default:
@@ -234,32 +397,46 @@ func tokenize(doc []byte) tokInfo {
 	}
 }
 
-func renderHTML(gs []*stack.Goroutine, mode string, lvl stack.Similarity) (doc []byte, buckets []*stack.Bucket, err string) {
+// renderHTML returns the document and the creation time toHTML used: toHTML calls
+// time.Now().Truncate(time.Second) itself, so the clock is read before and after the call and the
+// rendering is repeated until both readings fall into the same second.
+func renderHTML(gs []*stack.Goroutine, mode string, lvl stack.Similarity, m hmeta) (doc []byte, buckets []*stack.Bucket, now string, err string) {
 	defer func() {
 		if e := recover(); e != nil {
 			err = "PANIC:" + strings.ReplaceAll(fmt.Sprint(e), "\t", " ")
 		}
 	}()
-	var buf bytes.Buffer
-	snap := &stack.Snapshot{Goroutines: gs}
-	var e error
-	if mode == "agg" {
-		a := snap.Aggregate(lvl)
-		buckets = a.Buckets
-		e = a.ToHTML(&buf, "")
-	} else {
-		e = snap.ToHTML(&buf, "")
+	for {
+		var buf bytes.Buffer
+		snap := m.snap // copy
+		snap.Goroutines = gs
+		var e error
+		var a *stack.Aggregated
+		if mode == "agg" {
+			a = snap.Aggregate(lvl)
+			buckets = a.Buckets
+		}
+		t0 := time.Now().Truncate(time.Second)
+		if mode == "agg" {
+			e = a.ToHTML(&buf, template.HTML(m.footer))
+		} else {
+			e = snap.ToHTML(&buf, template.HTML(m.footer))
+		}
+		if t1 := time.Now().Truncate(time.Second); !t0.Equal(t1) {
+			continue
+		}
+		if e != nil {
+			err = "ERR:" + strings.ReplaceAll(e.Error(), "\t", " ")
+		}
+		return buf.Bytes(), buckets, t0.String(), err
 	}
-	if e != nil {
-		err = "ERR:" + strings.ReplaceAll(e.Error(), "\t", " ")
-	}
-	return buf.Bytes(), buckets, err
 }
 
-func emitHTML(id string, gs []*stack.Goroutine, mode string) {
+func emitHTML(id string, gs []*stack.Goroutine, mode string, m hmeta) {
 	lvl := stack.ExactFlags // every goroutine its own bucket unless equal: keeps the twin's bucket structure identical
-	doc, buckets, errs := renderHTML(deepCopyGoroutines(gs), mode, lvl)
+	doc, buckets, now, errs := renderHTML(deepCopyGoroutines(gs), mode, lvl, m)
 	tw := &twinner{m: map[string]string{}}
+	tm := tw.meta(m)
 	var tdoc []byte
 	terr := ""
 	func() {
@@ -272,11 +449,12 @@ func emitHTML(id string, gs []*stack.Goroutine, mode string) {
 		var e error
 		if mode == "agg" {
 			// same buckets in the same order (the twin is not re-aggregated: its strings sort differently)
-			ta := &stack.Aggregated{Snapshot: &stack.Snapshot{}}
+			tsnap := tm.snap
+			ta := &stack.Aggregated{Snapshot: &tsnap}
 			for _, b := range buckets {
 				ta.Buckets = append(ta.Buckets, &stack.Bucket{Signature: tw.sig(b.Signature), IDs: b.IDs, First: b.First})
 			}
-			e = ta.ToHTML(&buf, "")
+			e = ta.ToHTML(&buf, template.HTML(tm.footer))
 		} else {
 			var tgs []*stack.Goroutine
 			for _, g := range gs {
@@ -284,7 +462,9 @@ func emitHTML(id string, gs []*stack.Goroutine, mode string) {
 				c.Signature = tw.sig(g.Signature)
 				tgs = append(tgs, &c)
 			}
-			e = (&stack.Snapshot{Goroutines: tgs}).ToHTML(&buf, "")
+			tsnap := tm.snap
+			tsnap.Goroutines = tgs
+			e = tsnap.ToHTML(&buf, template.HTML(tm.footer))
 		}
 		if e != nil {
 			terr = "ERR:" + strings.ReplaceAll(e.Error(), "\t", " ")
@@ -303,7 +483,7 @@ func emitHTML(id string, gs []*stack.Goroutine, mode string) {
 	}
 	det := "1"
 	for k := 0; k < 3; k++ {
-		d2, _, _ := renderHTML(deepCopyGoroutines(gs), mode, lvl)
+		d2, _, _, _ := renderHTML(deepCopyGoroutines(gs), mode, lvl, m)
 		if mask(d2) != mask(doc) {
 			det = "0"
 		}
@@ -341,8 +521,19 @@ func emitHTML(id string, gs []*stack.Goroutine, mode string) {
 		}
 		values = sexpGoroutines(gs)
 	}
+	// the metadata list: creation time, version, one or two GOROOTs, ONE item for all GOPATHs,
+	// the module list and one item per module, GOMAXPROCS; one doctype, one content div.
+	// (the footer is trusted input and comes after the legend: the generated footers contain none of
+	// these elements)
+	wantLi := 5
+	if m.snap.LocalGOROOT != "" && m.snap.LocalGOROOT != m.snap.RemoteGOROOT {
+		wantLi++
+	}
+	if len(m.snap.LocalGomods) != 0 {
+		wantLi += 1 + len(m.snap.LocalGomods)
+	}
 	complete := "1"
-	if ti.h1 != wantH1 || ti.tr != wantTr {
+	if ti.h1 != wantH1 || ti.tr != wantTr || ti.li != wantLi || ti.doctype != 1 || ti.divs != 1 {
 		complete = "0"
 	}
 	var at []string
@@ -363,7 +554,8 @@ func emitHTML(id string, gs []*stack.Goroutine, mode string) {
 			region = hexs(doc[i : i+j+len("</div>")])
 		}
 	}
-	emit("html", id, mode, hexs([]byte(runtime.Version())), values, ats, skel, scheme, complete, errs, det, region)
+	emit("html", id, mode, hexs([]byte(runtime.Version())), values, ats, skel, scheme, complete, errs, det, region,
+		m.String(), hexs([]byte(m.footer)), hexs([]byte(now)), strconv.Itoa(runtime.GOMAXPROCS(0)), hexs(doc))
 }
 
 func opHTML(r *rand.Rand, n int, tier string) {
@@ -377,13 +569,21 @@ func opHTML(r *rand.Rand, n int, tier string) {
 		}
 		for k := 0; k < ng; k++ {
 			gr := &stack.Goroutine{Signature: g.sig(), ID: k*3 + 1, First: k == 0}
+			if r.Intn(25) == 0 {
+				// longer than the 100 frames the runtime prints: 51..120 frames, marked elided
+				gr.Stack.Calls = nil
+				for n := 51 + r.Intn(70); n > 0; n-- {
+					gr.Stack.Calls = append(gr.Stack.Calls, g.call())
+				}
+				gr.Stack.Elided = true
+			}
 			if mode == "snap" {
 				gr.RaceAddr = 0xc000001000 + uint64(r.Intn(100))
 				gr.RaceWrite = r.Intn(2) == 0
 			}
 			gs = append(gs, gr)
 		}
-		emitHTML(fmt.Sprintf("html-%d", i), gs, mode)
+		emitHTML(fmt.Sprintf("html-%d", i), gs, mode, g.meta())
 	}
 }
 
@@ -399,6 +599,10 @@ func init() {
 		} else {
 			gs = readGoroutines(in[2])
 		}
-		emitHTML(id, gs, in[0])
+		var m hmeta
+		if len(in) >= 12 {
+			m = parseHmeta(in[10], in[11])
+		}
+		emitHTML(id, gs, in[0], m)
 	}
 }
